@@ -15,6 +15,17 @@ def _is_leaf(o):
     return o is None or isinstance(o, (bool, int, float, complex, str, bytes, np.generic, PurePath, type))
 
 
+def _is_empty(v):
+    if v is None:
+        return True
+    if isinstance(v, (np.ndarray, str, bytes)) or sp.issparse(v):
+        return False
+    try:
+        return len(v) == 0
+    except Exception:
+        return False
+
+
 def walk(obj, path="", seen=None, skip=()):
     """Yield (path, kind, value) for every reachable node; kind in
     {'array','leaf','enter','callable'}."""
@@ -23,13 +34,14 @@ def walk(obj, path="", seen=None, skip=()):
     if _is_leaf(obj):
         yield path, "leaf", obj
         return
+    if isinstance(obj, np.ndarray):
+        # arrays are always reported (aliasing inside one object graph is not part of its state)
+        yield path, "array", obj
+        return
     if id(obj) in seen:
         yield path, "leaf", "<seen>"
         return
     seen.add(id(obj))
-    if isinstance(obj, np.ndarray):
-        yield path, "array", obj
-        return
     if sp.issparse(obj):
         yield path, "enter", type(obj).__name__ + repr(obj.shape)
         for name in ("data", "indices", "indptr", "row", "col"):
@@ -77,7 +89,10 @@ def walk(obj, path="", seen=None, skip=()):
     for k in sorted(d):
         if k in skip:
             continue
-        for x in walk(d[k], path + "." + k, seen, skip):
+        v = d[k]
+        if "__empty__" in skip and _is_empty(v):
+            continue   # None == empty manager == empty container (lazily created attributes)
+        for x in walk(v, path + "." + k, seen, skip):
             yield x
 
 
